@@ -67,7 +67,7 @@ CHECKS = {
          "clock/transport owned via verif hooks; responses without records carry no TTL bound; plain data races are covered by the footprint oracle and a supplementary (sampled, reported separately, never counted as exploration) free-running -race pass", "§3 C16"),
  "C20": ("model_checking", "E4 hist + E2 envx + cfmem",
          "history enumeration of publishes against a map-based model over an in-memory fake of the Cloudflare API; API failures as single deviations at every request index",
-         "All histories of up to 2 calls with target lists of length <=2 (3) and all histories of 3 calls with lists <=1, from 12 initial parameter strings (incl. several ech entries, a bare ech key, a quoted value with blanks), with the zone on one or three pages, plus a single API failure of three kinds at every request index, are replayed on a fresh publisher; statuses, the stored values (tokenised) of touched and untouched records and the request log are compared with the model after every call.",
+         "All histories of up to 2 calls with target lists of length <=2 (3) and all histories of 3 calls with lists <=1, from 13 initial parameter strings (incl. several ech entries, a bare ech key, quoted values with blanks and with an escaped backslash), with the zone on one or three pages, plus a single API failure of three kinds at every request index, are replayed on a fresh publisher; statuses, the stored values (tokenised) of touched and untouched records and the request log are compared with the model after every call.",
          "one HTTPS record per name and zone; fake API follows Cloudflare v4 list semantics (count = items on the page)", "§3 C20"),
  "C18": ("model_checking", "E3 gosched",
          "stateless model checking of the real Dial under a controlled scheduler: sources rewritten at check time (goroutines, channels, select, WaitGroup, context, timers -> shims), all schedules up to a deviation bound in virtual time, monitors over the event log",
